@@ -747,7 +747,11 @@ func verifC42Generate() []string {
 		case 4:
 			mp = append(append([]byte{}, mp...), r.Bytes(1+r.Intn(2))...)
 		case 5: // permuted / duplicated keys of r: reorder the encoded (key,value) items
-			mp = verifC42PermuteR(mp, r)
+			if r.Chance(35) {
+				mp = verifC42PermuteProp(mp, r)
+			} else {
+				mp = verifC42PermuteR(mp, r)
+			}
 		}
 		g.ops = append(g.ops, kind+verifC42Hex(mp))
 		b := v.stateless(byte(r.U64()), byte(r.Intn(2))*byte(r.U64()), r.Chance(80), r)
@@ -791,6 +795,27 @@ func verifC42Widen(mp []byte, key string, r *vh.Rng) ([]byte, bool) {
 
 // verifC42PermuteR swaps two adjacent items of the canonical `r` map (or duplicates one): still well-formed
 // msgpack for a decoder that accepts keys in any order.
+// verifC42PermuteProp swaps (or duplicates) the adjacent dig / encdig items inside the `prop` map.
+func verifC42PermuteProp(mp []byte, r *vh.Rng) []byte {
+	dk := []byte(msgpFixstrDig + msgpBin8Len32)
+	ek := []byte(msgpFixstrEncdig + msgpBin8Len32)
+	i := bytes.Index(mp, dk)
+	if i < 0 || i+len(dk)+32+len(ek)+32 > len(mp) || !bytes.HasPrefix(mp[i+len(dk)+32:], ek) {
+		return verifC42PermuteR(mp, r)
+	}
+	dEnd := i + len(dk) + 32
+	eEnd := dEnd + len(ek) + 32
+	out := append([]byte{}, mp[:i]...)
+	if r.Chance(75) {
+		out = append(out, mp[dEnd:eEnd]...)
+		out = append(out, mp[i:dEnd]...)
+	} else { // dig twice: same length only if we drop encdig, so the map count stays right
+		out = append(out, mp[i:dEnd]...)
+		out = append(out, mp[i:dEnd]...)
+	}
+	return append(out, mp[eEnd:]...)
+}
+
 func verifC42PermuteR(mp []byte, r *vh.Rng) []byte {
 	i := bytes.Index(mp, []byte(msgpFixstrR))
 	if i < 0 || i+2 >= len(mp) {
